@@ -64,6 +64,8 @@ def build_events(contract, path):
 def quote_at(evs, bound):
     best = None
     for i, e in enumerate(evs):
+        if e.contract.symbol == "Y":
+            continue          # the never traded second contract of the tick variant
         if e.time <= bound and (best is None or (e.time, i) >= (best[0], best[1])):
             best = (e.time, i, e)
     return best[2] if best else None
@@ -79,15 +81,37 @@ def snapshot(env):
     return (tuple(sorted((str(k), float(v)) for k, v in b._holdings_quantity.items() if not isinstance(k, Cash))), len(b.track_record))
 
 
-def run_case(pos_i, path, cash, reward, script):
+class TickValue(Feature):
+    """A user feature that values the account at every quote (with raise_if_broke=False): valuations then also
+    happen BETWEEN two quotes that carry the same timestamp."""
+
+    def __init__(self):
+        super().__init__(save=False)
+
+    def process_EventNBBO(self, event):
+        if self.broker is not None:
+            self.broker.net_liquidation_value(False)
+
+    def parse(self):
+        return np.zeros(1)
+
+
+OTHER = spot("Y", 1.0)      # a second, never traded contract quoted just before the traded one at every instant
+
+
+def run_case(pos_i, path, cash, reward, script, tick=False):
     """Returns list of (message, signature-or-None)."""
     name, contract, w, _, _ = POSITIONS[pos_i]
     reset_clock()
     G, evs = build_events(contract, path)
+    kw = {}
+    if tick:
+        evs = [x for e in evs for x in (EventNBBO(e.time, OTHER, 10.0, 10.0), e)]
+        kw["state"] = [TickValue()]
     tr = Transmitter(list(G))
     tr.add_events(list(evs))
     env = TradingEnv(BoxPortfolio([contract], -3.0, 3.0), transmitter=tr, latency=L, initial_cash=cash,
-                     reward=REWARDS[reward]())
+                     reward=REWARDS[reward](), **kw)
     out = []
     actions = {"step": np.array([w]), "step2": np.array([w / 2])}
 
@@ -269,6 +293,8 @@ def cases(tier):
             for reward in REWARDS:
                 for script in scripts:
                     yield (pos_i, path, 1024.0, reward, script)
+                    if path is not None and POSITIONS[pos_i][1] is FUT and reward == "simple":
+                        yield (pos_i, path, 1024.0, reward, script, True)
     # first decision refused: non-positive initial cash
     for pos_i in (0, 2, 4, 5):
         for cash in (0.0, -16.0):
@@ -280,17 +306,18 @@ def cases(tier):
 def _work(chunk):
     out = {"evaluations": 0, "findings": [], "nontrivial": set(), "outcomes": set()}
     for case in chunk:
-        pos_i, path, cash, reward, script = case
+        pos_i, path, cash, reward, script = case[:5]
+        tick = len(case) > 5 and case[5]
         try:
-            res = run_case(pos_i, path, cash, reward, script)
+            res = run_case(pos_i, path, cash, reward, script, tick)
         except Exception as ex:
             res = [("harness: case raised %r" % (ex,), None)]
         out["evaluations"] += 1
-        out["outcomes"].add(hash((pos_i, str(path), cash, tuple(m for m, _ in res))))
+        out["outcomes"].add(hash((pos_i, str(path), cash, tick, tuple(m for m, _ in res))))
         if path is not None or cash <= 0:
-            out["nontrivial"].add(hash((pos_i, str(path), cash, reward, script)))
+            out["nontrivial"].add(hash((pos_i, str(path), cash, reward, script, tick)))
         for msg, sig in res:
-            out["findings"].append(({"pos": pos_i, "path": path, "cash": cash, "reward": reward, "script": list(script)}, msg, sig))
+            out["findings"].append(({"pos": pos_i, "path": path, "cash": cash, "reward": reward, "script": list(script), "tick": tick}, msg, sig))
     return out
 
 
@@ -312,7 +339,7 @@ def run(tier, **kw):
     rep.set("rule", "one evaluation = one environment driven by one call script; enumerated: 6 positions (2x/3x long, 1x/2x short on a fully-paid "
                     "contract, 3x long and 2x short on a margined one) x {no ruin, adverse move at bar 1..3 x 2 sizes (exact-zero and negative NLV) x applied as a "
                     "latent quote before the decision or as the bar after it x {no recovery, recovery as bar, recovery as latent quote}} x 4 reward "
-                    "functions x every call script step,(step|step-other|reset)^4 (quick) / ^5 (thorough); plus non-positive initial cash; "
+                    "functions x every call script step,(step|step-other|reset)^4 (quick) / ^5 (thorough); plus non-positive initial cash; plus, for the margined positions, the same paths with a second contract quoted at every instant just before the traded one and a user feature valuing the account at every quote; "
                     "non-trivial = distinct case with a ruinous path or non-positive cash")
     rep.set("samples", [{"pos": "long2", "path": {"r": 2, "f": 0.5, "mech": "latent", "rec": None}, "cash": 1024.0, "reward": "log",
                          "script": ["step", "step", "step2", "reset", "step"],
@@ -323,7 +350,7 @@ def run(tier, **kw):
 
 
 def replay(case, **kw):
-    res = run_case(case["pos"], case["path"], case["cash"], case["reward"], tuple(case["script"]))
+    res = run_case(case["pos"], case["path"], case["cash"], case["reward"], tuple(case["script"]), case.get("tick", False))
     known = {KF_STEP_RAISES, KF_INDEX, KF_ACCEPTED}
     from mcx.common import Known
     kn = Known()
